@@ -295,6 +295,8 @@ theorem after_updates_periodic (eqv : Mdl ℝ → Mdl ℝ → Bool) (heq : EqvEx
   exact periodic_gen sched hs _ _ _ sf z1 z2 N _ X pos pos' c hL ha hshift i
 
 set_option linter.unusedSimpArgs false in
+set_option linter.unreachableTactic false in
+set_option linter.unusedTactic false in
 /-- what `SRF.__call__` hands to the generator: `update(self.model, seed)`.  With an exact model comparison the
     generator afterwards stores the anisotropy of the SRF's model (in-place changes of the model included) -/
 theorem srf_call_adopts_anis (eqv : Mdl ℝ → Mdl ℝ → Bool) (heq : EqvExact eqv) (st : St ℝ) (m : Mdl ℝ) (seed : Option Nat)
@@ -351,5 +353,62 @@ theorem isclose_not_exact : ¬ EqvExact (mdlClose : Mdl ℝ → Mdl ℝ → Bool
       Bool.and_true, beq_self_eq_true, Bool.true_and, decide_eq_true_eq, fabs_real]
     norm_num [abs_le]) 0
   norm_num at this
+
+/-! ### the witness for the `np.isclose` band -/
+
+noncomputable def wA : Mdl ℝ := ⟨2, fun _ => 1 / 2, 0⟩
+noncomputable def wB : Mdl ℝ := ⟨2, fun _ => 1 / 2 + 1 / 10 ^ 7, 0⟩
+
+set_option linter.unusedSimpArgs false in
+theorem wClose : mdlClose wA wB = true := by
+  simp only [wA, wB, mdlClose, isclose, List.range_succ, List.range_zero, List.nil_append, List.all_cons, List.all_nil,
+      Bool.and_true, beq_self_eq_true, Bool.true_and, decide_eq_true_eq, fabs_real]
+  norm_num [abs_le]
+
+set_option linter.unusedSimpArgs false in
+set_option linter.unreachableTactic false in
+set_option linter.unusedTactic false in
+theorem w0 : let st0 := run mdlClose (blank : St ℝ) [⟨some wA, some 1, some #[10], some #[4]⟩]
+    st0.hasPeriod = true ∧ st0.hasModel = true ∧ st0.model = wA := by
+  simp only [run, update, blank, Option.isNone_some, Bool.not_false, Bool.and_false, Bool.false_eq_true, if_false,
+    Option.getD_some, Bool.false_and, Bool.or_false, Bool.or_self, Bool.not_true]
+  have hodd : oddModeNo wA.dim (some #[4]) = false := by decide
+  simp only [hodd, Bool.false_eq_true, if_false, seedStep, isNewModel, Bool.false_and, Bool.not_false, Bool.true_or,
+    if_true, resetSeed]
+  refine ⟨?_, ?_, ?_⟩ <;> first | trivial | rfl
+
+set_option linter.unusedSimpArgs false in
+/-- the full statement "after `SRF.__call__` the generator stores the anisotropy of the SRF's model" is FALSE for the
+    code's own comparison (`mdlClose` = `np.isclose` band): a reachable state and a model inside the band whose
+    anisotropy is not adopted (known finding F4; replayed on the implementation by the search, key
+    `fourier:isclose-model-stale-anis`) -/
+theorem srf_call_isclose_stale :
+    ∃ (us : List (Upd ℝ)) (m : Mdl ℝ),
+      let st0 := run mdlClose (blank : St ℝ) us
+      st0.hasPeriod = true ∧ m.dim = st0.model.dim ∧
+        (update mdlClose st0 ⟨some m, none, none, none⟩).1.model.anis 0 ≠ m.anis 0 := by
+  refine ⟨[⟨some wA, some 1, some #[10], some #[4]⟩], wB, ?_⟩
+  obtain ⟨hp, hm, hmod⟩ := w0
+  intro st0
+  have hp : st0.hasPeriod = true := hp
+  have hm : st0.hasModel = true := hm
+  have hmod : st0.model = wA := hmod
+  refine ⟨hp, by rw [hmod]; rfl, ?_⟩
+  have he : mdlClose st0.model wB = true := by rw [hmod]; exact wClose
+  have hg2 : decide (wB.dim ≠ st0.model.dim) = false := by rw [hmod]; simp [wA, wB]
+  have hst : (update mdlClose st0 ⟨some wB, none, none, none⟩).1 = st0 := by
+    unfold update
+    simp only [hp, hm, hg2, Option.isNone_some, Option.getD_some, Bool.not_true, Bool.false_and, Bool.and_false,
+      Bool.false_eq_true, if_false, oddModeNo, Bool.and_self, seedStep, modesStep, gridStep, isNewModel, he,
+      Option.isSome_none, Bool.or_false]
+  rw [hst, hmod]
+  simp only [wA, wB]
+  norm_num
+
+/-- `EqvExact` is satisfiable by a comparison that really compares (exact equality of tag, dimension and anisotropy) -/
+example : EqvExact (fun a b => by classical exact decide (a.tag = b.tag ∧ a.dim = b.dim ∧ a.anis = b.anis)) := by
+  intro a b h d
+  simp only [decide_eq_true_eq] at h
+  rw [h.2.2]
 
 end GSV.Props.C17
